@@ -151,7 +151,8 @@ where
         )))
     }
 
-    /// Try to decrypt using the current exporter secret and if fails try with the past ones until a max lookback of [`DEFAULT_EPOCH_LOOKBACK`].
+    /// Try to decrypt using the current exporter secret and if fails try with the past ones, looking back
+    /// [`DEFAULT_EPOCH_LOOKBACK`] epochs or as far as the configured past-epoch and snapshot windows reach.
     pub(super) fn try_decrypt_with_recent_epochs(
         &self,
         mls_group: &MlsGroup,
@@ -173,11 +174,13 @@ where
                 );
 
                 // Try with past exporter secrets
-                self.try_decrypt_with_past_epochs(
-                    mls_group,
-                    encrypted_content,
-                    DEFAULT_EPOCH_LOOKBACK,
-                )
+                // The look-back covers the configured windows: late messages are accepted up to
+                // `max_past_epochs` back and a competing commit can reach `epoch_snapshot_retention`
+                // epochs back; both may be configured above the default.
+                let lookback = DEFAULT_EPOCH_LOOKBACK
+                    .max(self.config.max_past_epochs as u64)
+                    .max(self.config.epoch_snapshot_retention as u64);
+                self.try_decrypt_with_past_epochs(mls_group, encrypted_content, lookback)
             }
         }
     }
